@@ -30,8 +30,10 @@ FULL STATEMENT (DESIGN §4 C15) and what is proved here:
   §8     search_print_read (`NonTerminalSearch.format_as_spec` for every search class vs the selector
          sub-grammar)                                                          — PROVED: the reader
          returns the paren-free reading `normSel`, which is the search itself for every search the
-         front end builds from a paren-free text; that `normSel s` FINDS what `s` finds
-         (`<a>.(<b>.<c>)` vs `(<a>.<b>).<c>`) is NOT proved: differential
+         front end builds from a paren-free text.  That `normSel s` FINDS what `s` finds is NOT
+         proved, and FALSE for a multi-entry `{…}` group on a parenthesised dotted base (the order of
+         the found trees changes: `C15_search_parens_matter`, finding C15/selector-parens-dropped); for
+         the other searches it is checked differentially (real `find` on real trees)
   NOT proved (differential only, every run): the boolean / comparison / quantifier layer of constraints
   ABOVE the selectors (`Constraint.format_as_spec`: open findings F18 legacy quantifier, F21 `not` over a
   comparison, F22 parenthesised boolean group re-read as one expression — root causes in the front-end
@@ -40,6 +42,7 @@ FULL STATEMENT (DESIGN §4 C15) and what is proved here:
 -/
 import Proofs.Print
 import Proofs.PrintSearch
+import Proofs.PrintSearchSem
 import Proofs.PyLit
 import Generated.Print
 namespace FV
@@ -381,6 +384,28 @@ theorem C15_slice_bounds_keep_their_places :
     PS.readSel (PS.printSel (.item (.rule "<a>") [.rng none none (some 2), .idx 0, .rng none none none]))
       = some (.item (.rule "<a>") [.rng none none (some 2), .idx 0, .rng none none none]) ∧
     PS.printSel (.item (.rule "<a>") [.rng none (some 2) none]) ≠ PS.printSel (.item (.rule "<a>") [.rng (some 2) none none]) := by
+  decide +kernel
+
+/-- **finding C15/selector-parens-dropped** — the paren-free reading does NOT always find what the search
+    finds: `(<start>.<a>.<c>){*<x>, *<y>}` prints `<start>.<a>.<c>{*<x>, *<y>}`, which is read back as
+    `<start>.<a>.(<c>{*<x>, *<y>})`; a `{…}` group looks up its entries one after the other over ALL base
+    trees, so on the tree of `prqs` (`<start> ::= <a> <a>; <a> ::= <c>; <c> ::= <x> <y>`) the search finds
+    `p q r s` and its printed form `p r q s` (same trees, other order — visible through a `*` selection).
+    On the shared model of `find` (`Model/Search.lean`); `decide +kernel`: a finite witness. -/
+def exParens : PS.Sel :=
+  .sel (.attr (.attr (.rule "<start>") (.rule "<a>")) (.rule "<c>")) [⟨"<x>", false, none⟩, ⟨"<y>", false, none⟩]
+def exParensTree : Tree :=
+  let c (x y : Nat) : Tree := .node "<c>" [.node "<x>" [.leaf (.text [x])], .node "<y>" [.leaf (.text [y])]]
+  .node "<start>" [.node "<a>" [c 112 114], .node "<a>" [c 113 115]]
+
+theorem C15_search_parens_matter :
+    PS.wfSel exParens = true ∧
+    PS.normSel exParens = .attr (.attr (.rule "<start>") (.rule "<a>"))
+      (.sel (.rule "<c>") [⟨"<x>", false, none⟩, ⟨"<y>", false, none⟩]) ∧
+    PS.foundLeaves exParens exParensTree
+      = some [[.text [112]], [.text [113]], [.text [114]], [.text [115]]] ∧
+    PS.foundLeaves (PS.normSel exParens) exParensTree
+      = some [[.text [112]], [.text [114]], [.text [113]], [.text [115]]] := by
   decide +kernel
 
 /-- non-vacuity: `<a>..<b>.<c>{*<d>, *<e>: 0:2}[1]`-like terms; a parenthesised source
